@@ -32,6 +32,13 @@ RULE = ("[ordinary streams] structures: periodic cells (orthorhombic, triclinic 
         "structure is derived from that object by the library's own operations (replicate, copy + cell scaling / row assignment, "
         "a[idx], extend, copy) and the replacement is done on the derived object — judged by the same image / in-cell oracle and "
         "required to equal the replacement on a fresh object built from the derived structure's dump. "
+        "[STORAGE stream] 36/400 cases: the SAME coordinates, but the structure's coordinate array is ASSIGNED by the caller "
+        "(structure.positions = array) in another numpy representation holding exactly the same numbers — whole-number "
+        "structures (cell, atoms, search pattern typed with ints; replacement atoms mostly at non-integer places) as int64 / "
+        "int32 / int16 / float32 / float16 arrays, Fortran-ordered, as a strided view of a larger array or read-only, in a third "
+        "of those also the search pattern (and a whole-number replacement pattern) stored as integers; generated float structures "
+        "(coordinates rounded to float32 first) as float32, Fortran-ordered, strided or read-only arrays — judged by the same "
+        "occurrence / image / in-cell oracle and the joint-motion clause. "
         "[TAGGED stream, known finding collinear-search-pattern-offaxis-replacement] the "
         "identification case (C–O pair, replacement C–O + off-axis S) and 12/150 generated cases with one-atom, two-atom and "
         "collinear search patterns and off-axis replacement atoms, compared under a joint motion INCLUDING the atoms whose place "
@@ -570,6 +577,74 @@ def spelled_hints(case):
     return tuple(h)
 
 
+STORAGE_WHOLE = ["int64", "int64", "int32", "int32", "int16", "float32", "float16", "fortran", "strided", "readonly"]
+STORAGE_FLOAT = ["float32", "float32", "fortran", "strided", "readonly"]
+
+
+def stored(a, kind):
+    """the same numbers in another numpy representation (raises if `kind` cannot hold them exactly)"""
+    a = np.asarray(a)
+    if kind in ("int64", "int32", "int16", "float32", "float16"):
+        b = a.astype(kind)
+    elif kind == "fortran":
+        b = np.asfortranarray(a.astype(float))
+    elif kind == "strided":
+        big = np.full((2 * len(a) + 1, 7), 1e300)
+        big[1::2, 1::2] = a
+        b = big[1::2, 1::2]
+    elif kind == "readonly":
+        b = a.astype(float)
+        b.setflags(write=False)
+    else:
+        raise ValueError("unknown storage %r" % (kind,))
+    if b.shape != a.shape or not np.array_equal(b.astype(float), a.astype(float)):
+        raise ValueError("storage %s does not hold the coordinates exactly" % kind)
+    return b
+
+
+@contextlib.contextmanager
+def stored_as(pairs):
+    """pairs: [(canonical JSON, storage kind)]. While active, the objects built for these JSONs get their coordinate
+    array re-assigned by the caller (obj.positions = <the same numbers in that representation>)."""
+    pairs = [(j, k) for j, k in pairs if k]
+    real = core.atoms_from_json
+
+    def build(j):
+        obj = real(j)
+        for jj, kind in pairs:
+            if j is jj and len(obj) > 0:
+                obj.positions = stored(obj.positions, kind)
+        return obj
+    core.atoms_from_json = build
+    try:
+        yield
+    finally:
+        core.atoms_from_json = real
+
+
+def storage_case(rng, tier):
+    """the structure's coordinates are handed over as an array the CALLER assigned (another dtype / memory layout, same numbers)"""
+    if rng.random() < 0.6:
+        # whole-number structure: representable in integer arrays; replacement atoms at non-integer places in 3 of 4 cases
+        for _ in range(4):
+            case = G.make_int_case(rng, tier)
+            if not case["int_rp"]:
+                break
+        kind = rng.choice(STORAGE_WHOLE)
+        if kind.startswith("int") and rng.random() < 0.34:
+            case["p_storage"] = kind           # the patterns are whole-number too: stored alike (replacement only if whole-number)
+    else:
+        case = G.make_case(rng, tier, boundary=rng.choice([None, True, "corner"]), hints=(None, None, None), int_rp=False,
+                           distort=False, exact=False, tilt=False, flip=False, bent=False)
+        kind = rng.choice(STORAGE_FLOAT)
+        if kind == "float32":
+            sj = dict(case["s"])
+            sj["atoms"] = [dict(a, pos=[core.q(float(np.float32(fl(v)))) for v in a["pos"]]) for a in sj["atoms"]]
+            case["s"] = sj
+    case["s_storage"] = kind
+    return case
+
+
 def run_real(case, motion=None):
     pj, rj = case["p"], case["r"]
     if motion is not None:
@@ -579,8 +654,11 @@ def run_real(case, motion=None):
         ints.append(rj)                      # the replacement pattern enters through the constructor with integer-typed coordinates
     if case.get("int_typed"):
         ints += [case["s"]] + ([pj] if motion is None else [])
+    store = [(case["s"], case.get("s_storage"))]
+    if case.get("p_storage") and motion is None:
+        store += [(j, case["p_storage"]) for j in (pj, rj) if all_integer(j)]
     try:
-        with int_constructed(ints):
+        with int_constructed(ints), stored_as(store):
             return findlib.run_replace(case["s"], pj, rj, atol=case["atol"], replace_all=case["replace_all"], seed=case["seed"],
                                        fraction=case.get("fraction", 1.0), hints=spelled_hints(case))
     except (ValueError, OverflowError) as e:      # the result cannot be canonicalised: NaN / inf coordinates
@@ -605,6 +683,8 @@ def check_case(ctx, case, with_joint=True):
     ctx.count("unwrapped:%s" % bool(info.get("unwrapped")))
     ctx.count("int-typed-structure+pattern+cell:%s" % bool(case.get("int_typed")))
     ctx.count("hint-spelling:%s" % case.get("hint_spelling", "plain"))
+    ctx.count("structure-coordinates-stored-as:%s" % (case.get("s_storage") or "float64 (constructor)"))
+    ctx.count("pattern-coordinates-stored-as:%s" % (case.get("p_storage") or "float64 (constructor)"))
     ctx.count("opoint-hint:%s" % ((case.get("hints") or [None] * 3)[2] is not None))
     ctx.count("flip:%s" % (str(info.get("flip")).split("(")[0]))
     ctx.count("bent-decoy:%s" % (info.get("bent_decoy_h_over_atol") is not None))
@@ -679,6 +759,15 @@ def run(ctx, oracle_only=False):
     check_offaxis(ctx, canonical_offaxis_case())
     for _ in range(ctx.n(12, 150)):
         check_offaxis(ctx, offaxis_case(ctx.rng, ctx.tier))
+    # storage stream: the structure's coordinate array was assigned by the caller in another dtype / memory layout
+    for _ in range(ctx.n(36, 400)):
+        case = storage_case(ctx.rng, ctx.tier)
+        out, op = check_case(ctx, case)
+        ctx.count("storage-stream")
+        if op is not None and not oracle_only:
+            ops.append(op)
+            outs.append(out)
+            inps.append(case)
     if oracle_only or not ops:
         return
     models = []
@@ -701,6 +790,10 @@ def search(ctx):
         # tilted cells, boundary placements, long replacement arms: where a wrong wrap shows
         for _ in range(400):
             check_history(ctx, history_case(rng, "thorough"))
+            if ctx.failures:
+                return
+        for _ in range(400):
+            check_case(ctx, storage_case(rng, "thorough"))
             if ctx.failures:
                 return
         for _ in range(1500):
